@@ -357,6 +357,36 @@ def traffic_success_family(full):
     return out
 
 
+def instance_family(full):
+    """fixed boundary family for the reload hand-over by instance: node X has its own dialer instance in the group that
+    overrides the check options (entries 0 and 1 carry the same name) while node Y (entry 2) is one shared instance;
+    optionally a third group shares X's first instance.  Before the reload the two instances of X differ in one type
+    (each of the six, either instance dead; in the thorough tier also differing counters through probe streaks);
+    both group orders.  Every new instance must inherit the state of the old instance of the same node IN THE SAME
+    GROUP; callbacks fired during inheritance, alive sets and connectivity slots are compared."""
+    out = []
+    for dom in range(6):
+        for dead in (0, 1):
+            for order in (0, 1):
+                for third in ((False, True) if full else ((dom + dead + order) % 2 == 0,)):
+                    groups = [{"policy": "min_last", "members": [0, 2], "offsets": [0, 0], "oid": 2},
+                              {"policy": "min_avg10", "members": [1, 2], "offsets": [0, 0], "oid": 44}]
+                    if order:
+                        groups.reverse()
+                    if third:
+                        groups.append({"policy": "min_moving_avg", "members": [2, 0], "offsets": [0, 0], "oid": 86})
+                    kill = [{"op": "fail", "n": dead, "dom": dom, "kind": "forced", "err": "timeout", "alt": False}]
+                    if full and dom >= 2:
+                        kill = [{"op": "fail", "n": dead, "dom": dom, "kind": "check", "err": "refused", "alt": False}] * 3
+                    ops = [{"op": "probe_ok", "n": 1 - dead, "dom": dom, "alt": False}] + kill + [{"op": "reload"},
+                           {"op": "fail", "n": 1 - dead, "dom": dom, "kind": "traffic", "err": "eof", "alt": False},
+                           {"op": "probe_ok", "n": dead, "dom": dom, "alt": False}]
+                    out.append({"dialers": [{"addr": "", "name": "X"}, {"addr": "", "name": "X"}, {"addr": "", "name": "Y"}],
+                                "groups": groups, "tolerance": 0, "ops": ops,
+                                "family": "instances/%s/instance%d_dead/%s%s" % (DOMS[dom], dead, "BA" if order else "AB", "+C" if third else "")})
+    return out
+
+
 # ------------------------------------------------------------------------------------------------
 # observation encodings (must mirror obs_full / obs_proj_* of coq/C16_Check.v)
 # ------------------------------------------------------------------------------------------------
@@ -678,7 +708,7 @@ def main(argv):
                 if n.endswith(".json"):
                     corpus.append(json.load(open(os.path.join(cdir, n))))
         family = (reload_family(args.tier == "thorough") + cross_counter_family(args.tier == "thorough")
-                  + traffic_success_family(args.tier == "thorough"))
+                  + traffic_success_family(args.tier == "thorough") + instance_family(args.tier == "thorough"))
         corpus = corpus + family          # fixed inputs run first, like the corpus
         cases = corpus + [gen_case(rng, big=(args.tier == "thorough" and i % 3 == 0)) for i in range(n_cases)]
         all_err, all_res, sigs, fatal = {}, {}, [], None
@@ -779,7 +809,7 @@ def main(argv):
             out.violation("tie", what, "proof obligation or model correspondence no longer checks; no failing input found", no_failing_input=True)
         nontrivial = len(set(s for s in sigs if int(s[0]) > 0 and int(s[2]) > 0))
         cov.update(evaluations=n_eval, distinct_nontrivial=nontrivial, distinct_signatures=len(set(sigs)),
-                   rule="fixed traffic-success family (death through every route incl. those leaving the traffic streak at 0, then successful traffic: data-UDP revives, other types do not) + fixed cross-counter family (death through probe / transactional / traffic streak, forced report or escalation, optionally a reload hand-over, then failures through every counter, ignorable errors, a success) + fixed reload family (2-3 groups x 2-4 nodes in all overlap shapes x all-dead / one-version-dead / one-alive per domain, then reload) + random histories over 1-4 nodes (shared / empty proxy addresses), 0-3 groups (3 latency policies, random, fixed; shared nodes; offsets; tolerance), "
+                   rule="fixed instance family (one node with its own dialer instance in a group overriding the check options plus shared instances, instances differing in each type before a reload, both group orders) + fixed traffic-success family (death through every route incl. those leaving the traffic streak at 0, then successful traffic: data-UDP revives, other types do not) + fixed cross-counter family (death through probe / transactional / traffic streak, forced report or escalation, optionally a reload hand-over, then failures through every counter, ignorable errors, a success) + fixed reload family (2-3 groups x 2-4 nodes in all overlap shapes x all-dead / one-version-dead / one-alive per domain, then reload) + random histories over 1-4 nodes (shared / empty proxy addresses), 0-3 groups (3 latency policies, random, fixed; shared nodes; offsets; tolerance), "
                         "built from runs of probe / transactional / traffic failures of length threshold-2..threshold+2 with interruptions (success, ignorable error, skipped probe, other source), "
                         "forced reports, escalation bursts, suppression scopes and quiesce end, global reset, reloads; both spellings of each network type. "
                         "signature = (threshold deaths, escalations, revivals, suppressed failures, slot clears, reloads) saturated at 3; non-trivial = at least one threshold death and one revival",
